@@ -390,7 +390,40 @@ def rule_group_label_classes(ctx: Ctx) -> None:
         raise AnalysisError("group.label-classes: no class adds the label one-qubit")
 
 
+def rule_noisy_copy_registers(ctx: Ctx) -> None:
+    """noisy-copy.registers: assign_noise rebuilds the circuit gate by gate in a fresh CircuitDAG.  The fresh circuit owns the same registers as
+    the original — all three counts are handed to the constructor — because `add()` only creates the registers a gate touches: an emitter
+    no gate acts on would be missing from the noisy copy (fewer qubits in the compiled state), and an idle register in the middle makes
+    add() raise "Register numbering must be continuous"."""
+    repo = ctx.repo
+    m = repo.module(DAG)
+    n = 0
+    for q in ("CircuitDAG.assign_noise",):
+        fn = repo.anchor(DAG, q)
+        ctx.touch(m, fn)
+        ctors = [c for c in calls_in(fn) if (call_name(c) or "").split(".")[-1] == "CircuitDAG"]
+        if not ctors:
+            raise AnalysisError(f"{q}: the construction of the new circuit was not found")
+        for c in ctors:
+            n += 1
+            want = {"n_emitter": "self.n_emitters", "n_photon": "self.n_photons", "n_classical": "self.n_classical"}
+            got = {k.arg: norm(k.value) for k in c.keywords}
+            for name_, a in zip(("n_emitter", "n_photon", "n_classical"), c.args):
+                got[name_] = norm(a)
+            missing = [k for k, v in want.items() if got.get(k) != v]
+            if missing:
+                ctx.fail("noisy-copy.registers", m, c,
+                         f"{q} builds the noisy copy as `{short(c, 90)}`: {missing} not taken from the original ({', '.join(want[k] for k in missing)}); add() only "
+                         f"creates the registers a gate touches, so a register no gate acts on is missing from the copy and the compiled state has fewer qubits",
+                         func=q, construct=f"{q}: new circuit without {missing}")
+            else:
+                ctx.ok("noisy-copy.registers", m, c, what="the noisy copy owns the registers of the original")
+    if n == 0:
+        raise AnalysisError("noisy-copy.registers: no site")
+
+
 def run(ctx: Ctx) -> None:
+    rule_noisy_copy_registers(ctx)
     rule_group_run_closed(ctx)
     rule_group_label_classes(ctx)
     rule_copy_faithful(ctx)
@@ -644,6 +677,7 @@ def rule_unwrap_source(ctx: Ctx) -> None:
 
 
 KNOCKOUTS = [
+    Knockout("assign-noise-without-emitter-registers", DAG, sub_once("        empty_circ = CircuitDAG(\n            n_emitter=self.n_emitters,\n", "        empty_circ = CircuitDAG(\n"), "noisy-copy.registers", "n_emitter"),
     Knockout("remove-identity-stops-at-first-noisy-identity", DAG, sub_once('                if isinstance(self.dag.nodes[node]["op"].noise, NoNoise):\n                    self.remove_op(node)\n', '                if not isinstance(self.dag.nodes[node]["op"].noise, NoNoise):\n                    break\n                self.remove_op(node)\n'), "identity.scope", "leaves its loop"),
     Knockout("two-qubit-base-labelled-one-qubit", "graphiq/circuit/ops.py", sub_nth('        self.add_labels("two-qubit")', '        self.add_labels("one-qubit")', 0), "group.label-classes", "is not a OneQubitOperationBase"),
     Knockout("remove-identity-strips-theta-zero-rotations", "graphiq/circuit/circuit_dag.py", sub_once('                if isinstance(self.dag.nodes[node]["op"].noise, NoNoise):\n                    self.remove_op(node)\n', '                if isinstance(self.dag.nodes[node]["op"].noise, NoNoise):\n                    self.remove_op(node)\n        for node in self.get_node_by_labels(["one-qubit"]):\n            op = self.dag.nodes[node]["op"]\n            if isinstance(op, ops.ParameterizedOneQubitRotation) and op.params[0] == 0 and isinstance(op.noise, NoNoise):\n                self.remove_op(node)\n'), "identity.scope", "phase gate"),
